@@ -275,6 +275,59 @@ func Run(rep *hx.Report, props Props, tier string, sh hx.Shard, deadline time.Ti
 		rep.Bound += fmt.Sprintf("; S3: M in %v, PC at the first and the last cell, forms x field pairs from {0,1,2,M/2,M/2+1,M-2,M-1,46341,65536,L-1,2L-1} (L the reduced limit) with large fields in the operand cells, limits (M,M), (M/2-1750,M/2-1750) and (M/2+1,M-2) in rotation; for M >= 100003 five values whose products exceed 2^32 (quick: arithmetic opcodes only)", larges)
 	}
 
+	// S3m: every form on mid-sized and power-of-two cores and on the 100003-cell core.
+	if props.C01 || props.C04 || props.C11 {
+		mids := []uint64{256, 4096, 65536, 100003}
+		for _, M := range mids {
+			vals := []uint64{0, 1, 255, 256 % M, M / 2, M - 1}
+			if M >= 65536 {
+				vals = []uint64{1, 65537 % M, M - 1}
+				if thorough {
+					vals = []uint64{0, 1, 256, 65537 % M, M / 2, M - 1}
+				}
+			}
+			st := &State{M: M, P: 2, R: M, W: M, Core: make([]g.Instruction, M)}
+			for f := 0; f < hx.NForms; f++ {
+				if !sh.Mine(f) {
+					continue
+				}
+				if expired() {
+					return
+				}
+				st.PC = M - 1
+				for ai, a := range vals {
+					for bi, b := range vals {
+						if M >= 65536 && !thorough && (ai+bi+f)%2 == 1 {
+							continue // quick: half of the pairs per form, alternating with the form
+						}
+						st.Core[st.PC] = hx.Mk(f, a, b)
+						switch (a + b + uint64(f)) % 3 {
+						case 0:
+							st.R, st.W = M, M
+						case 1:
+							st.R, st.W = M/4, M/4
+						default:
+							st.R, st.W = M/2+1, M-2
+						}
+						for _, t := range []uint64{a, b} {
+							if c := (st.PC + t) % M; c != st.PC {
+								st.Core[c] = g.Instruction{Op: g.DAT, A: g.Address((M - 1 - t/3) % M), B: g.Address((M/2 + t) % M)}
+							}
+						}
+						ck.Check(st)
+						for _, t := range []uint64{a, b} {
+							if c := (st.PC + t) % M; c != st.PC {
+								st.Core[c] = g.Instruction{}
+							}
+						}
+					}
+				}
+			}
+			rep.Sample(st.String())
+		}
+		rep.Bound += fmt.Sprintf("; S3m: M in %v, PC at the last cell, every form x field pairs from {0,1,255,256,M/2,M-1} (for M >= 65536 quick: {1,65537,M-1}, half of the pairs per form) with large fields in the operand cells, limits (M,M), (M/4,M/4), (M/2+1,M-2) in rotation", mids)
+	}
+
 	if !thorough {
 		return
 	}
